@@ -191,6 +191,8 @@ class Exec:
         self.fresh_n = 0
         self.depth = 0
         self.notes = []
+        self.merge = False      # state-merging mode (generated straight-line code): no forks on if / ifexp / and / or / assert
+        self.guards = []        # conditions of the merged branches currently being executed
 
     # ---- path management -----------------------------------------------------
     def branch(self, cond, tag=None):
@@ -268,6 +270,33 @@ class Exec:
         elif isinstance(cond, bool):
             cond = z3.BoolVal(cond)
         self.obligations.append((name, cond, list(self.pc)))
+
+    def guard_conj(self):
+        return z3.And(*self.guards) if self.guards else z3.BoolVal(True)
+
+    def collect_raise(self, exc, g, label=''):
+        """Record (instead of forking on) an exceptional outcome under condition g; continue on the complement."""
+        g = z3.BoolVal(True) if g is True else (bool_term(g) if isinstance(g, Sym) else g)
+        full = z3.simplify(z3.And(self.guard_conj(), g))
+        if z3.is_false(full):
+            return
+        self.ghost.setdefault('raises', []).append((label, exc, full))
+        self.assume(z3.Not(full))
+
+    def sym_cond(self, test, fr):
+        """Evaluate a condition without forking (merge mode): Python bool or Sym bool."""
+        v = self.eval(test, fr)
+        if isinstance(v, GV):
+            gs = [g for g, x in v.alts if self._static_truth(x)]
+            return mk_bool(z3.Or(*gs)) if gs else False
+        if isinstance(v, Sym):
+            return mk_bool(truth_term(v))
+        return self.truth(v)
+
+    def _static_truth(self, x):
+        if isinstance(x, Sym):
+            raise Unsupported('truthiness of symbolic alternative in merge mode')
+        return bool(x) if not isinstance(x, (Obj,)) else True
 
     def concretize(self, v):
         """Fork over the alternatives of a guarded union."""
@@ -398,10 +427,54 @@ class Exec:
         raise _Return(self.eval(s.value, fr) if s.value is not None else None)
 
     def st_If(self, s, fr):
+        if self.merge:
+            c = self.sym_cond(s.test, fr)
+            if isinstance(c, Sym):
+                return self.merged_if(c, s, fr)
+            if c:
+                self.exec_block(s.body, fr)
+            else:
+                self.exec_block(s.orelse, fr)
+            return
         if self.truth(self.eval(s.test, fr)):
             self.exec_block(s.body, fr)
         else:
             self.exec_block(s.orelse, fr)
+
+    def merged_if(self, c, s, fr):
+        ct = bool_term(c)
+        base = dict(fr.locals)
+        outs = []
+        for cond, block in ((ct, s.body), (z3.Not(ct), s.orelse)):
+            fr.locals = dict(base)
+            self.guards.append(cond)
+            dead = False
+            try:
+                self.exec_block(block, fr)
+            except PyRaise as pr:
+                self.guards.pop()
+                self.collect_raise(pr.exc.clsname, cond, 'raise-in-branch')
+                dead = True
+            else:
+                self.guards.pop()
+            outs.append((cond, None if dead else fr.locals))
+        (ca, la), (cb, lb) = outs
+        if la is None and lb is None:
+            raise PathAbort()
+        if la is None:
+            fr.locals = lb
+            return
+        if lb is None:
+            fr.locals = la
+            return
+        merged = {}
+        for k in set(la) | set(lb):
+            if k in la and k in lb:
+                a, b = la[k], lb[k]
+                merged[k] = a if a is b else ite(Sym(ca, 'bool'), a, b)
+            else:
+                merged[k] = la.get(k, lb.get(k))
+        fr.locals = merged
 
     def st_While(self, s, fr):
         n = 0
@@ -445,6 +518,14 @@ class Exec:
         raise _Continue()
 
     def st_Assert(self, s, fr):
+        if self.merge:
+            c = self.sym_cond(s.test, fr)
+            if isinstance(c, Sym):
+                self.collect_raise('AssertionError', z3.Not(bool_term(c)), 'assert')
+                return
+            if not c:
+                raise PyRaise(make_exc('AssertionError'))
+            return
         if not self.truth(self.eval(s.test, fr)):
             raise PyRaise(make_exc('AssertionError'))
 
@@ -694,6 +775,25 @@ class Exec:
 
     def ex_BoolOp(self, e, fr):
         isand = isinstance(e.op, ast.And)
+        if self.merge:
+            vals = []
+            for sub in e.values:
+                v = self.eval(sub, fr)
+                if isinstance(v, GV):
+                    v = self.sym_cond_value(v)
+                if not isinstance(v, Sym):
+                    t = self.truth(v)
+                    if isand and not t:
+                        return v if not vals else (vand(*vals, False))
+                    if (not isand) and t:
+                        if not vals:
+                            return v
+                        return vor(*vals, True)
+                    continue
+                vals.append(mk_bool(truth_term(v)))
+            if not vals:
+                return isand
+            return vand(*vals) if isand else vor(*vals)
         v = None
         for i, sub in enumerate(e.values):
             v = self.eval(sub, fr)
@@ -706,7 +806,27 @@ class Exec:
                 return v if not isinstance(v, Sym) else True
         return v
 
+    def sym_cond_value(self, v):
+        gs = [g for g, x in v.alts if self._static_truth(x)]
+        return mk_bool(z3.Or(*gs)) if gs else False
+
     def ex_IfExp(self, e, fr):
+        if self.merge:
+            c = self.sym_cond(e.test, fr)
+            if isinstance(c, Sym):
+                ct = bool_term(c)
+                self.guards.append(ct)
+                try:
+                    a = self.eval(e.body, fr)
+                finally:
+                    self.guards.pop()
+                self.guards.append(z3.Not(ct))
+                try:
+                    b = self.eval(e.orelse, fr)
+                finally:
+                    self.guards.pop()
+                return ite(c, a, b)
+            return self.eval(e.body, fr) if c else self.eval(e.orelse, fr)
         if self.truth(self.eval(e.test, fr)):
             return self.eval(e.body, fr)
         return self.eval(e.orelse, fr)
